@@ -150,14 +150,18 @@ def c12(ctx):
     quick = ctx.tier == "quick"
     ctx.build_harness()
     t1 = ctx.tlc_expect_ok("MC_Meta.tla", "MC_Meta_tags.cfg", tag="meta_tags")
+    rpt = os.path.join(ctx.scratch, "meta_tags.json")
+    ctx.vdrive(["metadocs", "-in", t1["out"], "-out", rpt])
+    trep_tags = ctx.report(rpt)
     t2 = ctx.tlc_expect_ok("MC_Meta.tla", "MC_Meta_content.cfg", tag="meta_content")
     # the content-attribute token strings are also rendered into pragmas and run through the real Detect
     rpc = os.path.join(ctx.scratch, "meta_content.json")
     ctx.vdrive(["metadocs", "-in", t2["out"], "-out", rpc])
     crep = ctx.report(rpc)
     r, rep = _meta(ctx, "docs", not quick, "meta_docs")
-    rep["violations"] += crep["violations"]
-    rep["evaluations"] += crep["evaluations"]
+    rep["violations"] += crep["violations"] + trep_tags["violations"]
+    rep["evaluations"] += crep["evaluations"] + trep_tags["evaluations"]
+    rep["tags_drift"] = dict(count=trep_tags["drift"], samples=trep_tags.get("drift_samples", [])[:3])
     rep["extra"]["declaration_applicable"] += crep["extra"]["declaration_applicable"]
     cov = dict(
         evaluations=rep["evaluations"],
